@@ -558,7 +558,8 @@ class C12(Spec):
             for o in opts:
                 for _ in range(3):
                     stage = 'auto_th' if key == 'ath' else rng.choice([st for st in CONT if st != 'mc_reference'])
-                    arr = rng.choice(['2d', 'pd2'] if key == 'nch' else ['pd1', 'pd2'] if key == 's0np' else arr_kinds(stage))
+                    arr = rng.choice([a for a in (['2d', 'pd2'] if key == 'nch' else ['pd1', 'pd2'] if key == 's0np' else arr_kinds(stage))
+                                      if a in arr_kinds(stage)] or arr_kinds(stage))     # stay inside the stage's domain
                     yield self._rand_case(rng, stage, arr, rep={key: o})
         # 4. streams without a single sample
         for stage in CONT:
